@@ -447,7 +447,11 @@ func cmdCheck(args []string) int {
 					violations++
 					p.rep.Reproduced = append(p.rep.Reproduced, p.path)
 					vioLines = append(vioLines, fmt.Sprintf("VIOLATION property=%s replay=%s", c.Property, p.path))
-					fmt.Printf("  counterexample %s label=%s inputs=%s reproduced natively\n", filepath.Base(p.path), p.f.Label, inputsString(p.f.Inputs))
+					how := "natively"
+					if p.rep.Concrete {
+						how = "by concrete re-execution"
+					}
+					fmt.Printf("  counterexample %s label=%s inputs=%s reproduced %s\n", filepath.Base(p.path), p.f.Label, inputsString(p.f.Inputs), how)
 				} else {
 					p.rep.Discrepancy = append(p.rep.Discrepancy, p.path)
 					fmt.Printf("ENCODER-DISCREPANCY property=%s harness=%s label=%s replay=%s native=%s/%v (not reported as violation)\n",
